@@ -3,8 +3,8 @@ CONSTANTS
   HeomResets = TRUE
   FreeModeLocal = TRUE
   RestoreOnError = TRUE
-  SplitCopies = TRUE
-  NefRecomputes = FALSE
+  SplitCopies = FALSE
+  NefRecomputes = TRUE
   NrefPersists = FALSE
 SPECIFICATION Spec
 CONSTRAINT Bounded
